@@ -99,8 +99,8 @@ Init == /\ script = InitScript(InitOpen) /\ mainBusy = 0 /\ tasks = <<>>
         /\ wmOpen = [u \in Uris |-> IF u \in InitOpen THEN InitText ELSE None]
         /\ wmVer = Cardinality(InitOpen)
         /\ disk = [u \in Uris |-> IF u \in OnDisk THEN Disk0 ELSE Absent]
-        /\ vfs = [u \in Uris |-> IF u \in InitOpen THEN InitText ELSE IF u \in OnDisk \ Outside THEN Disk0 ELSE Absent]
-        /\ published = [u \in Uris |-> IF u \in InitOpen THEN InitText ELSE Never]
+        /\ vfs = [u \in Uris |-> IF u \in InitOpen \ Outside THEN InitText ELSE IF u \in OnDisk \ Outside THEN Disk0 ELSE Absent]
+        /\ published = [u \in Uris |-> IF u \in InitOpen \ Outside THEN InitText ELSE Never]
         /\ diagTok = [u \in Uris |-> [g \in 0..MaxInc |-> 0]] /\ wsTok = 0 /\ cfgTok = 0 /\ rxTok = 0
         /\ reloadGen = 0 /\ reloadLock = 0
         /\ anR = {} /\ anW = 0 /\ wmR = {} /\ nDisk = 0 /\ late = {} /\ inc = [u \in Uris |-> 0]
@@ -197,7 +197,7 @@ DocStep(i) == LET t == tasks[i] u == t.uri IN
      /\ UNCHANGED <<wmOpen, wmVer, vfs, published, diagTok, anR, anW, wmR>>
   \/ /\ t.pc = 3 /\ CanWmW
      /\ wmOpen' = [wmOpen EXCEPT ![u] = t.text] /\ wmVer' = wmVer + 1
-     /\ tasks' = IF t.snapVer = 1 THEN Finish(tasks, i) ELSE Goto(tasks, i, 4)
+     /\ tasks' = IF t.snapVer = 1 /\ u \notin inWs THEN Finish(tasks, i) ELSE Goto(tasks, i, 4)   \* matcher consulted again under the write lock
      /\ UNCHANGED <<vfs, published, diagTok, anR, anW, wmR>>
   \/ /\ t.pc = 4 /\ CanAnW(i)
      /\ vfs' = [vfs EXCEPT ![u] = t.text]
@@ -237,7 +237,7 @@ CloseStep(i) == LET t == tasks[i] u == t.uri IN
 \* --- per-file diagnostic task ---------------------------------------------------------------------
 DiagStep(i) == LET t == tasks[i] u == t.uri IN
   \/ /\ t.pc = 1 /\ t.sleep = 0 /\ CanAnR
-     /\ published' = IF vfs[u] # Absent /\ t.gen = inc[u] /\ ~t.cancelled THEN [published EXCEPT ![u] = vfs[u]] ELSE published
+     /\ published' = IF vfs[u] # Absent /\ u \notin Outside /\ t.gen = inc[u] /\ ~t.cancelled THEN [published EXCEPT ![u] = vfs[u]] ELSE published
      /\ anR' = anR \cup {i}                      \* the read guard lives until the task ends
      /\ tasks' = Goto(tasks, i, 2)
      /\ UNCHANGED <<wmOpen, wmVer, vfs, diagTok, anW, wmR>>
@@ -387,7 +387,7 @@ AppendFileTasks(ts, us, parent) ==
                        us \ {u}, parent)
 WsStep(i) == LET t == tasks[i] IN
   \/ /\ t.kind = "wsdiag" /\ t.pc = 1 /\ t.sleep = 0 /\ CanAnR
-     /\ tasks' = AppendFileTasks(Finish(tasks, i), {u \in Uris : vfs[u] # Absent}, i)
+     /\ tasks' = AppendFileTasks(Finish(tasks, i), {u \in Uris : vfs[u] # Absent /\ u \notin Outside}, i)   \* main-workspace files only
      /\ UNCHANGED published
   \/ /\ t.kind = "wsfile" /\ t.pc = 1 /\ CanAnR
      /\ published' = IF vfs[t.uri] # Absent /\ t.snapVer = inc[t.uri] /\ ~tasks[t.gen].cancelled
@@ -485,7 +485,7 @@ C29 == (Quiescent /\ HadReload) =>
 \* C30: published diagnostics converge
 C30 == Quiescent =>
          \A u \in Uris :
-            /\ (ClientOpen(u) /\ vfs[u] # Absent) => published[u] = vfs[u]
+            /\ (ClientOpen(u) /\ vfs[u] # Absent /\ u \notin Outside) => published[u] = vfs[u]
             /\ (vfs[u] = Absent /\ published[u] # Never) => published[u] = Empty
 
 \* ---- emission of replayable behaviours: one per distinct quiescent state ---------------------------
